@@ -334,6 +334,25 @@ impl<'r, 'c, 's, W: Write> Serializer for DatumSerializer<'r, 'c, 's, W> {
 				self.serialize_str(variant)
 			}
 			SchemaNode::Union(union) => {
+				// The `Null` unit variant of an enum that maps to a union designates the null
+				// branch (this is what `derive(BuildSchema)` builds for it) - unless the union
+				// holds an enum with a `Null` symbol, in which case it is that symbol.
+				// Type-directed selection alone would prefer a string or enum branch.
+				if variant == "Null" {
+					if let Some((discriminant, SchemaNode::Null)) = union.per_type_lookup.named("Null") {
+						let is_enum_symbol = matches!(
+							union.per_type_lookup.unnamed(UnionVariantLookupKey::UnitVariant),
+							Some((_, SchemaNode::Enum(enum_))) if enum_.per_name_lookup.contains_key("Null")
+						);
+						if !is_enum_symbol {
+							self.state
+								.writer
+								.write_varint(discriminant)
+								.map_err(SerError::io)?;
+							return Ok(());
+						}
+					}
+				}
 				self.serialize_union_unnamed(union, UnionVariantLookupKey::UnitVariant, |ser| {
 					ser.serialize_unit_variant(name, variant_index, variant)
 				})
